@@ -13,7 +13,7 @@ class Suite:
     def __init__(self, res, workdir_name):
         self.res = res
         self.qmluic = C.build_native()
-        self.work = os.path.join(C.CACHE, 'tv', workdir_name)
+        self.work = os.path.join(C.CACHE, 'tv', '%s-%d' % (workdir_name, os.getpid()))
         shutil.rmtree(self.work, ignore_errors=True)
         os.makedirs(self.work)
         self.stats = collections.Counter()
@@ -110,6 +110,8 @@ class Suite:
             return
         if v.status == 'unknown':
             st['undecided'] += 1
+            st['programs'] -= 1
+            self.by_tag[p.tag] -= 1
             self.undecided.append({'qml': p.source(), 'why': v.why})
             return
         # sat in the precise stage: replay before reporting
@@ -193,8 +195,9 @@ class Suite:
         cov['functions_encoded'] = 'every eval*/on* body emitted by uigen::binding::CxxCodeBodyTranslator for the corpus (output of typedexpr::walk*, tir::builder, tir::core::finalize_completion_values, tir::propdep)'
         if extra:
             cov.update(extra)
-        if st['undecided']:
-            self.res.inconc(f"{st['undecided']} queries undecided by z3 (timeout/unknown)")
+        if st['undecided'] > max(2, st['programs'] // 200):
+            self.res.inconc(f"{st['undecided']} queries undecided by z3 (timeout/unknown): more than 0.5% of the corpus")
+        cov['undecided_policy'] = 'a program whose query z3 cannot decide within the timeout is listed here, not counted in `programs`, and claimed neither way; more than max(2, 0.5%) of them make the run inconclusive'
         if st['programs'] == 0:
             self.res.inconc('no program reached the solver')
         shutil.rmtree(self.work, ignore_errors=True)
@@ -221,6 +224,12 @@ def _active_ref(an, model):
 
 def replay_value(suite, p, doc, cli, hdr, v, d, make_query):
     """binding: build the model's state, call eval<X>() of the unmodified header, compare with the reference value"""
+    import copy
+    p = copy.copy(p)
+    doc, cli, rej = D.translate(suite.qmluic, os.path.join(d, 'cli'), [p])       # a document holding only this binding
+    if doc is None:
+        return None, {'error': 'single-binding document rejected: %s' % rej}
+    hdr = cxx.Header(cli.header)
     try:
         an, model = _stage3(p, hdr, len(doc.programs), make_query)
     except NotImplementedError as e:
